@@ -6,8 +6,10 @@ from vlib import specs, claims
 
 checks = []
 for pid in sorted(specs.PROPS):
-    if pid in claims.NOT_APPLICABLE:
+    if pid in claims.NOT_APPLICABLE or pid not in claims.CLAIMS:
         continue
+    if not specs.harnesses_for(pid, "quick"):
+        raise SystemExit(f"{pid} is claimed but has no quick harness")
     c = claims.CLAIMS[pid]
     checks.append({
         "property_id": pid,
